@@ -80,7 +80,24 @@ func addMetaOrigin(cs *gen.Case, pick int) bool {
 	// the metadata lives on one of the accounts (and under one of the keys) that the script's
 	// own set_account_meta statements write to, or on a separate account
 	acct, key := "cfg", "key_"+d.Name
-	if pick%3 != 0 {
+	if pick%4 == 3 {
+		// account / key pairs whose concatenations collide: u:1 + k == u + 1:k
+		used := map[string]bool{}
+		for _, e := range cs.Script.Vars {
+			if e.Origin != nil && e.Origin.Name == "meta" && len(e.Origin.Args) == 2 {
+				if a, ok := e.Origin.Args[0].(*gen.Account); ok {
+					used[a.Name] = true
+				}
+			}
+		}
+		for i := 0; i < 2; i++ {
+			j := (pick/4 + i) % 2
+			if cand := []string{"u:1", "u"}[j]; !used[cand] {
+				acct, key = cand, []string{"k", "1:k"}[j]
+				break
+			}
+		}
+	} else if pick%3 != 0 {
 		acct = []string{"a", "b", "c"}[pick%3]
 		key = []string{"k", "k2", "memo"}[(pick/3)%3]
 		for _, e := range cs.Script.Vars {
